@@ -246,9 +246,22 @@ def Err.isCompileException : Err → Bool
   | .undecodable _ => true
   | _ => false
 
-/-- `codecs.lookup`: which codec a name denotes, `none` = `LookupError` -/
+/-- the codec registry.  `codecOf` = `codecs.lookup`: which codec a name denotes, `none` = `LookupError`;
+    `isUtf8 n` = `Lexer._is_utf8(n)` = `codecs.lookup(n).name == "utf-8"`, `False` on `LookupError` (the registry's
+    normalisation of names – case, `-`/`_`, aliases – is a parameter; its tested instance is the regenerated
+    `Generated.Encoding.utf8Aliases`) -/
 structure Env where
   codecOf : Name → Option Codec
+  isUtf8 : Name → Bool
+
+/-- names the registry calls utf-8 denote the codec the BOM branch decodes with -/
+def Env.Coherent (env : Env) : Prop :=
+  ∀ n, env.isUtf8 n = true → env.codecOf n = env.codecOf Generated.Encoding.bomEncoding
+
+/-- does the comment `n` agree with a BOM?  `not self._is_utf8(m.group(1))` since the repair of F-C18-1
+    (`bomCompareByCodec`), `m.group(1) != "utf-8"` before -/
+def bomAgrees (env : Env) (n : Name) : Bool :=
+  if Generated.Encoding.bomCompareByCodec then env.isUtf8 n else n == Generated.Encoding.bomCompare
 
 /-- `text[len(codecs.BOM_UTF8):]` when `text.startswith(codecs.BOM_UTF8)` -/
 def stripBom (b : Bytes) : Option Bytes :=
@@ -259,12 +272,12 @@ def sniff (b : Bytes) : Option Name := codingName (utf8Ignore b)
 
 /-- the bytes branch up to (not including) `text.decode(parsed_encoding)`: the chosen encoding and the bytes that
     will be decoded -/
-def chooseBytes (b : Bytes) (known : Option Name) : Except Err (Name × Bytes) :=
+def chooseBytes (env : Env) (b : Bytes) (known : Option Name) : Except Err (Name × Bytes) :=
   match stripBom b with
   | some r =>
     match sniff r with
-    | some n => if n ≠ Generated.Encoding.bomCompare then .error (.bomConflict n)
-                else .ok (Generated.Encoding.bomEncoding, r)
+    | some n => if bomAgrees env n then .ok (Generated.Encoding.bomEncoding, r)
+                else .error (.bomConflict n)
     | none => .ok (Generated.Encoding.bomEncoding, r)
   | none =>
     match sniff b with
@@ -282,7 +295,7 @@ def decodeRawStream (env : Env) (inp : Input) (decodeRaw : Bool) (known : Option
   match inp with
   | .str t => .ok (chooseStr t known, .str t)
   | .bytes b =>
-    match chooseBytes b known with
+    match chooseBytes env b known with
     | .error e => .error e
     | .ok (n, r) =>
       if decodeRaw then
@@ -348,17 +361,25 @@ inductive Piece
   | reprOf (s : Text)
   /-- template source copied as it is (expressions, Python blocks, def signatures) -/
   | code (s : Text)
+  /-- the template's file name / uri: `"_template_filename = %a"` since the repair of F-C18-4 (`namesWrittenAscii`),
+      `%r` before -/
+  | nameOf (s : Text)
+
+/-- Python's `ascii(s)`: `repr` with every non-ASCII character escaped -/
+def pyAscii (s : Text) : Text := pyRepr (fun _ => true) s
 
 def Piece.render (np : Char → Bool) : Piece → Text
   | .scaffold s => s
   | .reprOf s => pyRepr np s
   | .code s => s
+  | .nameOf s => if Generated.Encoding.namesWrittenAscii then pyAscii s else pyRepr np s
 
 /-- the characters a piece takes from outside the generator -/
 def Piece.payload : Piece → Text
   | .scaffold _ => []
   | .reprOf s => s
   | .code s => s
+  | .nameOf s => if Generated.Encoding.namesWrittenAscii then [] else s
 
 def Piece.wellFormed : Piece → Bool
   | .scaffold s => isAsciiText s
@@ -451,7 +472,8 @@ def templateSource (env : Env) (given : Input) (sourceEncoding : Option Name) : 
     match env.codecOf (c :: cs) with
     | none => .error (.unknownCodec (c :: cs))
     | some cd =>
-      match cd.dec b with
+      -- "the lexer strips a utf-8 byte order mark before decoding" (repair of F-C18-3, `sourceStripsBom`)
+      match cd.dec (if Generated.Encoding.sourceStripsBom then (stripBom b).getD b else b) with
       | none => .error (.decodeError (c :: cs))
       | some t => .ok (.str t)
   | g, _ => .ok g
@@ -546,11 +568,11 @@ def IsCodecName (n : Name) : Prop := n ≠ [] ∧ ∀ ch ∈ n, isAsciiChar ch =
 def modelledCodingRe : String := "#.*coding[:=]\\s*([-\\w.]+).*\\r?\\n"
 def modelledPyMagic : String := "[ \\t\\f]* \\# .* coding[=:][ \\t]*([-\\w.]+)"
 def modelledBodies : List (String × String) :=
-  [("Lexer.decode_raw_stream", "2a05e471abe04b312a44fdc1fb24dfcb1bea421c"),
+  [("Lexer.decode_raw_stream", "2cb210e5e17a35292f067b14b2d1ae91cec9bf7d"),
    ("util.parse_encoding", "7751794e5e62e40af902c7d4a188075b4cbd3e70"),
    ("util.read_python_file", "56a265c708c4c472d7274df59b8cef6596b5ee75"),
    ("FastEncodingBuffer.getvalue", "ae5126c6880c5bbe218c4321c85c624d705c2ce7"),
    ("runtime._render", "aa78528c72fbe10cefcc82a5a339e793364c50ab"),
-   ("ModuleInfo.source", "6ef10a0a2d4aa2311c3967ee13b2d22e2f8e4a11")]
+   ("ModuleInfo.source", "faa5ec1d6bdabcc11fa2642c030eb8c027f47d30")]
 
 end MakoModel.Encoding
